@@ -620,7 +620,27 @@ impl Exec for GuestExec {
                     }
                     regions.push(GuestRegionMmap::new(mr, GuestAddress(st)).expect("harness: GuestRegionMmap::new"));
                 }
-                let m = if regions.is_empty() { GuestMemoryMmap::new() } else { GuestMemoryMmap::from_regions(regions).expect("harness: from_regions") };
+                // the collection under test may be reached through insert_region / remove_region instead of from_regions
+                let via = line["a"]["via"].as_str().unwrap_or("direct");
+                let m = if regions.is_empty() {
+                    GuestMemoryMmap::new()
+                } else if via == "insert" && regions.len() >= 2 {
+                    let k = regions.len() / 2;
+                    let held = Arc::new(regions.remove(k));
+                    GuestMemoryMmap::from_regions(regions).expect("harness: from_regions").insert_region(held).expect("harness: insert_region")
+                } else if via == "remove" && lay[0].0 >= 2 {
+                    // an extra one-byte region at address 0 is built into the map and removed again
+                    let extra = MmapRegionBuilder::new_with_bitmap(1, AtomicBitmap::new(1, nz))
+                        .with_mmap_prot(libc::PROT_READ | libc::PROT_WRITE)
+                        .with_mmap_flags(libc::MAP_ANONYMOUS | libc::MAP_PRIVATE | libc::MAP_NORESERVE)
+                        .build()
+                        .expect("harness: build region");
+                    regions.insert(0, GuestRegionMmap::new(extra, GuestAddress(0)).expect("harness: extra region"));
+                    let (m2, _removed) = GuestMemoryMmap::from_regions(regions).expect("harness: from_regions").remove_region(GuestAddress(0), 1).expect("harness: remove_region");
+                    m2
+                } else {
+                    GuestMemoryMmap::from_regions(regions).expect("harness: from_regions")
+                };
                 self.mem = Some(Mem::Mmap(m));
             }
             return event(line, json!({"k": "ok"}), self.state());
